@@ -21,12 +21,22 @@ Three kinds of cases (all JSON, self-contained, replayable):
                blocking or iput+wait, collective or independent; then (1) the same elements read back through the API
                (possibly through another form, by the other rank) must equal what was written and (2) after close the
                bytes must sit at the file offset computed from the decoded header (begin + index*xsz, or
-               begin + rec*recsize + index*xsz), read with POSIX pread at offsets > 4 GiB.
+               begin + rec*recsize + index*xsz), read with POSIX pread at offsets > 4 GiB.  Half of the cases read
+               back through a second handle (close + ncmpi_open), which learns the layout from the header (saturated
+               vsize, 64-bit begins).  Some definitions consist of small variables behind a header extent of
+               2 / 4 / 8 GiB (h_minfree argument of ncmpi__enddef), so that every element lies above the threshold.
+               The POSIX reads are done by the Python side on the kept scratch directory (os.pread, the same system
+               call as the executor's `pread` statement), because the offsets come from the header decoded after the run.
+
+Confirmed defect found by this check (generator switch SWITCHES["header_extent_above_2g"], replays/C18/header-extent-*):
+when the header extent exceeds 2^31-1 bytes rank 0 cannot build the file view of any request that is not contiguous in
+the file (ncmpio_file_set_view prepends the header extent as one block with an `int` length) and returns
+NC_EINTOVERFLOW; varn and all nonblocking requests fail the same way (wait returns the error, the request status says 0).
 
 Only the header (first KiB) and single elements of the sparse files are ever read; the scratch directory of every
 case is removed right after it.
 """
-import os, sys, itertools, shutil, collections
+import os, sys, itertools, shutil
 sys.path.insert(0, os.path.dirname(os.path.dirname(os.path.abspath(__file__))))
 from hypothesis import strategies as st
 from pv import cdfspec, runner, limits as LM
@@ -38,11 +48,13 @@ RULE = ("Rule table: deterministic enumeration (partitioned over workers) of def
         "fixed/record kinds, per-variable byte sizes from {lim-8, lim-4, lim, lim+4 : lim in 2^31-4, 2^31, 2^32-4, 2^32} plus the "
         "one-step sizes of 1/2-byte types, small ones, 2^40, and for CDF-5 sizes around 2^63-4 and products overflowing 2^64, "
         "each size built from different dimension factorisations, with the default and a pinned header extent, plus CDF-1 "
-        "definitions whose k-th variable begins exactly at 2^31-8 .. 2^31+4, plus def_dim lengths around 2^31-1, 2^32, 2^63-1; "
+        "definitions whose k-th variable begins exactly at 2^31-8 .. 2^31+4, definitions pushed to a threshold offset by the "
+        "h_minfree argument of ncmpi__enddef, plus def_dim lengths around 2^31-1, 2^32, 2^63-1; "
         "oracle = documentation-derived acceptance rule pv/limits.py + independent decode of the written header (vsize "
         "saturation, begins).  Addressing: enumerated and Hypothesis-generated single elements / short boxes / strided and varn "
         "requests at the first, last and threshold-straddling positions of multi-GiB variables in sparse files, k=1..2, "
-        "blocking/nonblocking, collective/independent; oracle = read-back through the API + POSIX pread at the offset computed "
+        "blocking/nonblocking, collective/independent, read back through the same or a re-opened handle, by the same or the "
+        "other rank; oracle = read-back through the API + POSIX pread at the offset computed "
         "from the decoded header.  Non-trivial = a definition with a size exactly at or one step beyond a threshold of its "
         "format (or a CDF-1 begin offset within 8 bytes of 2^31), or an addressing case with an element above file offset "
         "2^32; distinct = distinct case hash.")
@@ -55,8 +67,12 @@ ASSUMPTIONS = ["single node, local POSIX file system with sparse files, ROMIO (r
                "ncmpi_def_var may already refuse a variable larger than 2^63-4 bytes with NC_EVARSIZE (test/testcases/large_var_cdf5.c); "
                "the enddef rule is then applied to the variables that exist",
                "ncmpi__enddef(ncid, 0, 4, 0, 4) on a new file places the data section at the header size rounded up to 4 and packs "
-               "the variables (its documented meaning: no free space, 4-byte alignment); with plain ncmpi_enddef only format validity "
-               "of the begins is required",
+               "the variables (its documented meaning: no free space, 4-byte alignment); with h_minfree > 0 the data section starts at "
+               "least h_minfree bytes behind the header (an implementation may add up to 4096 more: verdicts that depend on it are "
+               "left open); with plain ncmpi_enddef only format validity of the begins is required",
+               "definitions whose data section starts above 2^31-1 (h_minfree) are accessed through blocking var1 / single-row vara "
+               "requests only while SWITCHES['header_extent_above_2g'] is on (confirmed defect, kept as replays)",
+               "ncmpi_redef followed by a second ncmpi_enddef is not exercised: an accepted re-definition may move multi-GiB sections",
                "memory type = native type of the variable and all bytes of a value are equal (0x01..0x7e), so neither conversion "
                "nor byte order is involved (C09)"]
 
@@ -171,8 +187,7 @@ def run_dim(ctx, case):
         for j, l in enumerate(accepted):
             e = res.get(n["inq"][j])
             if e is None or e.get("rc") != 0 or e.get("r") != [l]:
-                if True:
-                    P.append(prob("dimlen", "CDF-%d: inq_dimlen of dimension %d defined with length %d gives %s" % (fmt, j, l, e), fmt=fmt))
+                P.append(prob("dimlen", "CDF-%d: inq_dimlen of dimension %d defined with length %d gives %s" % (fmt, j, l, e), fmt=fmt))
         if res.rc(n["enddef"]) != 0 or res.rc(n["close"]) != 0:
             P.append(prob("enddef_rc", "CDF-%d: enddef/close of a file holding only dimensions %s returned %s/%s" % (
                 fmt, accepted, res.rc(n["enddef"]), res.rc(n["close"])), fmt=fmt, expect="accept"))
@@ -1225,10 +1240,10 @@ def coverage_extra(stats, tier):
                            "apparent_MiB_of_all_sparse_files": stats.get("addr_apparent_mib_total", 0)},
             "generator_switches": dict(SWITCHES),
             "excluded": {k: v for k, v in stats.items() if k.startswith("excluded_")},
-            "enumerated_domain": "quick: all 1- and 2-variable definitions over the full size menu for CDF-1/2 (CDF-5 sampled), seed-dependent samples "
-                                 "of the 3- and 4-variable products, all CDF-5 63-bit cases, a sample of the CDF-1 begin-offset targets, all def_dim "
-                                 "lengths; thorough: the full 1-3 variable products over the full menu, the 4-variable product over the reduced "
-                                 "menu, all begin-offset targets"}
+            "enumerated_domain": "both tiers: all def_dim length lists, all 1- and 2-variable definitions over the full size menu (3 formats), all "
+                                 "CDF-5 63-bit cases, all CDF-1 begin-offset targets, all h_minfree cases; quick adds seed-dependent samples of the "
+                                 "3- and 4-variable products over the reduced menu; thorough adds the full 3-variable product over the full menu "
+                                 "(CDF-1/2; reduced menu for CDF-5) and the full 4-variable product over the reduced menu (CDF-5: 10000 sampled)"}
 
 
 if __name__ == "__main__":
